@@ -150,7 +150,10 @@ def run_batch(gh, idx, profile, n, extra, seed, reps=2):
     if stats.get("events", 0) == 0:
         raise ToolError("driver produced no events: %s\n%s" % (" ".join(cmd), p.stdout[-2000:] + p.stderr[-2000:]))
     res = tlc(None, "TraceEngine.tla", "TraceEngine.cfg", d, workers=1, constants={"Focus": '"%s"' % FOCUS[0]}, timeout=3000)
-    if not res["ok"] or res["summary"] is None or res["summary"]["lines"] != stats["events"]:
+    with open(os.path.join(d, "trace.ndjson")) as f:
+        recorded = sum(1 for line in f if line.strip())
+    # (the monitor must have consumed every recorded event: the count is taken from the trace file itself)
+    if not res["ok"] or res["summary"] is None or res["summary"]["lines"] != recorded:
         tlc_failed(res, "batch %d (%s)" % (idx, profile))
     return {"dir": d, "profile": profile, "stats": stats, "tlc": res, "cmd": " ".join(cmd[1:]), "extra_model": extra_model}
 
